@@ -734,7 +734,10 @@ def _run(chk, rng, root, ok):
         ops_cases.append((base.replace("@K@", cnat(0)).replace("@B@", "true"),
                           syscall_ops(htr) if hexc is None else Err(type(hexc).__name__)))
         hn = len(htr)
-        for k in range(hn + 1):
+        bw = [k for k in range(hn) if htr[k].kind == "bwrite"]
+        # between two buffered writes nothing reaches the disk: quick keeps the first and the last of them
+        hpoints = [k for k in range(hn + 1) if chk.thorough or k == hn or htr[k].kind != "bwrite" or k in (bw[0], bw[-1])]
+        for k in hpoints:
             build_pre(impl, with_loc, files)
             c = impl.cache(lay)
             rc = run_hard_kill(lambda: c.__setitem__(key, vals_of()), root, k)
